@@ -119,3 +119,30 @@ pub fn repertoire(page: &Page) -> Vec<char> {
     }
     out
 }
+
+/// Strings whose *encoded* form starts like a byte-order mark (FF FE, FE FF,
+/// EF BB BF): a decoder that sniffs BOMs mangles exactly these.
+pub fn bom_lookalikes(page: &Page) -> Vec<String> {
+    let mut out = Vec::new();
+    if page.id == 65001 {
+        out.push("\u{feff}abc".to_string());
+        out.push("\u{feff}".to_string());
+        return out;
+    }
+    let one = |b: u8| -> Option<char> {
+        let s = page.decode(&[b]);
+        let mut cs = s.chars();
+        match (cs.next(), cs.next()) {
+            (Some(c), None) if c != '\u{fffd}' && page.encode(&s) == vec![b] => Some(c),
+            _ => None,
+        }
+    };
+    if let (Some(ff), Some(fe)) = (one(0xff), one(0xfe)) {
+        out.push(format!("{ff}{fe}ab"));
+        out.push(format!("{fe}{ff}abcd"));
+    }
+    if let (Some(ef), Some(bb), Some(bf)) = (one(0xef), one(0xbb), one(0xbf)) {
+        out.push(format!("{ef}{bb}{bf}xyz"));
+    }
+    out
+}
